@@ -175,3 +175,34 @@ func TestGovcReplay(t *testing.T) {
 		return "config", "TestGovcReplay", src, true
 	}
 }
+
+func init() {
+	mk := func(recv, field, ctor string) replayBuilder {
+		return func(vals map[string]string, sm *oblSummary) (string, string, string, bool) {
+			in, ok1 := ival(vals, "input")
+			n, ok2 := ival(vals, recv+"->"+field+".l")
+			if !ok1 || !ok2 || n < 0 || n > 1000 {
+				return "", "", "", false
+			}
+			src := fmt.Sprintf(`package pub
+
+import "testing"
+
+// counterexample found by the solver for %s: link number %d on an item with %d body links
+func TestGovcReplay(t *testing.T) {
+	item := %s
+	link, mediaType, present := item.SelectLink(%d)
+	if present && mediaType == nil {
+		t.Fatalf("SelectLink(%d) = %%q with a nil media type", link)
+	}
+	if (%d < 1 || %d > %d) && present {
+		t.Fatalf("SelectLink(%d) opened %%q although only links 1..%d exist", link)
+	}
+}
+`, sm.Name, in, n, fmt.Sprintf(ctor, n), in, in, in, in, n, in, n)
+			return "pub", "TestGovcReplay", src, true
+		}
+	}
+	replayBuilders["pub.Post.SelectLink"] = mk("p", "bodyLinks", "&Post{bodyLinks: make([]string, %d)}")
+	replayBuilders["pub.Actor.SelectLink"] = mk("a", "bioLinks", "&Actor{bioLinks: make([]string, %d)}")
+}
